@@ -155,6 +155,8 @@ type Result struct {
 	Underflow bool // a Pop/Return emptied the stack: the statement defines nothing from here on
 	Steps     int
 	EndOff    int
+	MaxDepth  int    // deepest state stack reached
+	StackSig  string // the states of that deepest stack
 }
 
 // Elided reports whether a rule name starts with a lower-case letter.
@@ -292,6 +294,14 @@ func (m *Model) Lex(in string) Result {
 				}
 			}
 			stack = append(stack, frame{state: sel.State, groups: groups})
+			if len(stack) > res.MaxDepth {
+				res.MaxDepth = len(stack)
+				sig := ""
+				for _, f := range stack {
+					sig += f.state + ">"
+				}
+				res.StackSig = sig
+			}
 		case Pop:
 			if len(stack) == 1 {
 				// popping the last state: nothing is defined from here on (the token itself is not predicted either)
